@@ -191,7 +191,7 @@ def work(run, names):
                     run.violation(f"C01|{name}|own-hash-not-verified", f"{name}: verify() is {ok_text!r} for the password the hash was made from ({label})", w, rp)
                 if ok_alt is not True:
                     run.violation(f"C01|{name}|text-bytes-disagree", f"{name}: verify() of the equivalent {'bytes' if isinstance(pw, str) else 'text'} form is {ok_alt!r} ({label})", w, rp)
-                run.case((name, label, len(secret), ",".join(f"{k}={v if k != 'salt' else len(v) if hasattr(v, '__len__') else v}" for k, v in sorted(st.items()))), w)
+                run.case((name, label, len(secret), ",".join(f"{k}={v if k != 'salt' else len(v) if hasattr(v, '__len__') else v}" for k, v in sorted(st.items()))), w if len(secret) > 3 else None)
                 run.count(f"triple:{name}")
                 # near misses
                 if not adm:
